@@ -9,6 +9,16 @@
 /// (`decreases rem(old(p)), <rank>` for the recursion through the type grammar, `decreases rem(p)` for every loop)
 pub open spec fn rem(p: &LuaDocParser) -> int { span_hi(p.tokens@) - front(p) }
 
+/// kinds the pending token can have while the doc lexer has never been given a range (`reader` is None): nothing / end of input,
+/// an origin token handed through unlexed by `lex_token` (end of line, whitespace, shebang), or one of the kinds that the driver
+/// and the grammar assign by hand (set_lexer_state: TkDocTrivia, re_calc_detail: TkDocDetail, set_current_token_kind: TkDocConst /
+/// TkDocInfer). Second strengthening of `dinv` in this unit: reader is None ==> quiet_kind(current_token); hence a pending `[`
+/// has a reader, which `is_mapped_type` unwraps.
+pub open spec fn quiet_kind(k: LuaTokenKind) -> bool {
+    k is None || k is TkEof || k is TkEndOfLine || k is TkWhitespace || k is TkShebang
+        || k is TkDocTrivia || k is TkDocDetail || k is TkDocConst || k is TkDocInfer
+}
+
 /// a live marker position: it holds a `NodeStart` (precondition of Marker::{set_kind, complete, undo}, CompleteMarker::precede)
 pub open spec fn mlive(pos: usize, ev: Seq<MarkEvent>) -> bool { pos < ev.len() && ev[pos as int] is NodeStart }
 
@@ -21,6 +31,35 @@ pub open spec fn cm_ok(r: Result<CompleteMarker, LuaParseError>, ev: Seq<MarkEve
 pub broadcast proof fn lemma_mlive_mono(pos: usize, a: Seq<MarkEvent>, b: Seq<MarkEvent>)
     requires #[trigger] mlive(pos, a), #[trigger] ev_mono(a, b),
     ensures mlive(pos, b),
+{
+}
+
+/// ANCHOR of the step chains of one function body: the entry state. `lemma_gstep_ext` extends a chain that starts at an anchored
+/// state by one more step, so that a body of n calls produces n chained facts gstep(entry, s_i) instead of the n^2 facts that
+/// the all-pairs transitivity lemma of unit c01_doc (lemma_gstep_trans) produces. The predicate is `true`; it is opaque only to
+/// exist as a trigger term (introduced by `lemma_anchor` at the top of every grammar fn and loop body).
+#[verifier::opaque]
+pub open spec fn anchor(a: &LuaDocParser) -> bool { true }
+
+pub proof fn lemma_anchor(a: &LuaDocParser)
+    ensures anchor(a),
+{
+    reveal(anchor);
+}
+
+pub broadcast proof fn lemma_gstep_ext(a: &LuaDocParser, b: &LuaDocParser, c: &LuaDocParser)
+    requires #[trigger] anchor(a), #[trigger] gstep(a, b), #[trigger] gstep(b, c),
+    ensures gstep(a, c),
+{
+    lemma_gstep_trans(a, b, c);
+}
+
+/// what a grammar function needs to know of a step, with the definitions of `dinv` and `ate` hidden (their quantifiers -
+/// adjacency of the origin tokens, the tiling of the eaten ranges - are instantiated by every sequence index term and make up
+/// most of the solver time of a grammar function otherwise): live markers stay live, the span stays the same
+pub broadcast proof fn lemma_gstep_frame(a: &LuaDocParser, b: &LuaDocParser)
+    requires #[trigger] gstep(a, b),
+    ensures ev_mono(a.sp_events(), b.sp_events()), b.tokens@ == a.tokens@, a.sp_events().len() <= b.sp_events().len(),
 {
 }
 
